@@ -316,7 +316,8 @@ def handle4 (op : String) (a obs : List String) : Option Verdict :=
         -- phase `after`: finished and acknowledged before the stop (quinn has released the stream)
         let q0 : StreamLife.Q := if phase == "after" then { finished := true, acked := true, released := true } else {}
         let evs : List StreamLife.Ev :=
-          if action == "stop_late" then [.peerStop c, .write, .peerAck, .write, .stoppedQuery] ++ (if phase == "after" then [] else [.finish])
+          if action == "lost" then [.connLost, .stoppedQuery, .write, .finish]
+          else if action == "stop_late" then [.peerStop c, .write, .peerAck, .write, .stoppedQuery] ++ (if phase == "after" then [] else [.finish])
           else [.peerStop c, .stoppedQuery, .write] ++ (if phase == "after" then [] else [.finish])
         let rs := ((StreamLife.run false q0 evs).2.filter (· != .none)).map res
         let fin := if phase == "after" then "ok" else rs.getLast?.getD "?"
@@ -330,7 +331,7 @@ def handle4 (op : String) (a obs : List String) : Option Verdict :=
         -- a signal raised after the stream was finished and acknowledged has nothing left to act on
         (phase == "after" && (field obs "stopped" == "closed" || field obs "stopped" == s!"stopped:{code}"))),
       ("data_before_signal_delivered", match wantGot with
-        | some g => action == "reset" || field obs "got" == toString g || action == "stop" || action == "stop_late"
+        | some g => action == "reset" || field obs "got" == toString g || action == "stop" || action == "stop_late" || action == "lost"
         | none => true)]
     pure (model, prop)
   | _ => none
